@@ -232,3 +232,65 @@ func sitesC07(fset *token.FileSet, files map[string]*ast.File) (string, error) {
 	}
 	return fmt.Sprintf("Definition max_depth : nat := %s.\nDefinition max_depth_sites : nat := %d.\n", val, n), nil
 }
+
+// ---------------- C14: directive names filtered at serialisation vs names the evaluator reads ----------------
+func init() { siteTables["C14"] = sitesC14 }
+
+func sitesC14(fset *token.FileSet, files map[string]*ast.File) (string, error) {
+	var ignore []string
+	read := map[string]bool{}
+	for _, fn := range sortedFileNames(files) {
+		for _, d := range files[fn].Decls {
+			fd, ok := d.(*ast.FuncDecl)
+			if !ok || fd.Body == nil {
+				continue
+			}
+			if fd.Name.Name == "shouldIgnoreAttr" {
+				ast.Inspect(fd.Body, func(x ast.Node) bool {
+					cc, ok := x.(*ast.CaseClause)
+					if !ok {
+						return true
+					}
+					for _, e := range cc.List {
+						if lit, ok := e.(*ast.BasicLit); ok && lit.Kind == token.STRING {
+							ignore = append(ignore, strings.Trim(lit.Value, `"`))
+						}
+					}
+					return true
+				})
+			}
+			ast.Inspect(fd.Body, func(x ast.Node) bool {
+				call, ok := x.(*ast.CallExpr)
+				if !ok {
+					return true
+				}
+				sel, ok := call.Fun.(*ast.SelectorExpr)
+				if !ok {
+					return true
+				}
+				if pkg, ok := sel.X.(*ast.Ident); !ok || pkg.Name != "helpers" {
+					return true
+				}
+				switch sel.Sel.Name {
+				case "HasAttr", "GetAttr", "RemoveAttr", "FilterAttrs", "SetAttr", "AppendAttr":
+					for _, a := range call.Args {
+						if lit, ok := a.(*ast.BasicLit); ok && lit.Kind == token.STRING {
+							s := strings.Trim(lit.Value, `"`)
+							if strings.HasPrefix(s, "v-") || strings.HasPrefix(s, "data-v-") {
+								read[s] = true
+							}
+						}
+					}
+				}
+				return true
+			})
+		}
+	}
+	var rd []string
+	for k := range read {
+		rd = append(rd, k)
+	}
+	sort.Strings(rd)
+	return "From V Require Import Base.Bytes.\nDefinition ignore_list : list bytes := " + coqList(ignore, coqBytes) +
+		".\nDefinition read_directives : list bytes := " + coqList(rd, coqBytes) + ".\n", nil
+}
